@@ -6,10 +6,13 @@ CONSTANTS
   PowBaseMax = 256
   PowExpMax = 32
   LeafInts = {1, 2, 3}
+  NegSyms = {}
+  NegInts = {}
   Vals = {1, 2, 3, 4}
   UnSet = {"neg", "floor", "ceil", "trunc"}
   BinSet = {"add", "sub", "mul", "floordiv", "truediv", "mod", "min", "max"}
   PerClass = 2
+  ClosedBoost = 1
   SampleRem = 0
   NRand = 200
   RandDepth = 3
